@@ -144,6 +144,12 @@ fn base_ads(r: &mut Rng) -> AdScript {
     }
 }
 
+fn build2(fam: &'static str, r: &mut Rng, p: &Params, secret: Option<Vec<u8>>, note: String) -> Scenario {
+    let ads = base_ads(r);
+    let client = rnd_sa(r);
+    build(fam, r, p, ads, secret, client, note)
+}
+
 fn build(fam: &'static str, r: &mut Rng, p: &Params, ads: AdScript, secret: Option<Vec<u8>>, client: SocketAddr, note: String) -> Scenario {
     let mut acts = vec![];
     let j = |r: &mut Rng| Act::Sleep(1 + 2 * r.below(15));
@@ -260,14 +266,18 @@ fn print_case(sc: &Scenario, rec: &RunRecord, pubkey: &[u8]) {
     if !rec.framed { flags |= 1; }
     if rec.out_garbled { flags |= 2; }
     let biggest_in = rec.raw_in.iter().map(|x| x.1.len()).max().unwrap_or(0);
+    // global order of the observable events: 0 = next send, 1 = next call
+    let mut ord: Vec<(u64, u8)> = rec.sent_seq.iter().map(|s| (*s, 0u8)).chain(rec.call_seq.iter().map(|s| (*s, 1u8))).collect();
+    ord.sort();
+    let order = g_list(&ord.iter().map(|(_, k)| format!("{}", k)).collect::<Vec<_>>());
     emit_case(sc.family, &format!(
         "{{| cc_cfg := {}; cc_rsa := {}; cc_psess := {}; cc_pauth := {}; cc_sauth := {}; cc_ssess := {}; \
          cc_status := {}; cc_auth := {}; cc_discover := {}; cc_filter := {}; cc_select := {}; cc_loc := {}; \
          cc_token := {}; cc_uuid := {}; cc_kaids := {}; cc_now := {}; cc_inbox := {}; cc_sent := {}; cc_calls := {}; \
-         cc_outcome := {}; cc_end := {}; cc_flags := {}; cc_maxalloc := {}; cc_biggest_in := {} |}}",
+         cc_outcome := {}; cc_end := {}; cc_flags := {}; cc_maxalloc := {}; cc_biggest_in := {}; cc_order := {}; cc_note := \"{}\"%string |}}",
         cfg, rsa, g_list(&psess), g_list(&pauth), g_list(&sauth), g_list(&ssess),
         res("status"), res("auth"), res("discover"), res("filter"), res("select"), loc,
-        g_hex(&rec.token), g_hex(&uuid), kaids, sc.clock, inbox, sent, calls, rec.outcome, rec.end_ms, flags, rec.max_alloc, biggest_in));
+        g_hex(&rec.token), g_hex(&uuid), kaids, sc.clock, inbox, sent, calls, rec.outcome, rec.end_ms, flags, rec.max_alloc, biggest_in, order, sc.note.replace('"', "'").replace('\\', "/")));
 }
 
 fn main() {
@@ -296,11 +306,188 @@ fn main() {
                     run(sc, &mut r);
                 }
             }
+            "C01" => {
+                // verdict x response mode x intent
+                let modes: Vec<(TokenMode, SecretMode, KeyMode)> = vec![
+                    (TokenMode::Echo, SecretMode::Good16, KeyMode::ServerKey),
+                    (TokenMode::FlipBit(0), SecretMode::Good16, KeyMode::ServerKey),
+                    (TokenMode::FlipBit(255), SecretMode::Good16, KeyMode::ServerKey),
+                    (TokenMode::Stale(vec![7u8; 32]), SecretMode::Good16, KeyMode::ServerKey),
+                    (TokenMode::Empty, SecretMode::Good16, KeyMode::ServerKey),
+                    (TokenMode::Random(32), SecretMode::Good16, KeyMode::ServerKey),
+                    (TokenMode::Random(31), SecretMode::Good16, KeyMode::ServerKey),
+                    (TokenMode::Echo, SecretMode::Good16, KeyMode::OtherKey),
+                    (TokenMode::Echo, SecretMode::Good16, KeyMode::Garbage(128)),
+                    (TokenMode::Echo, SecretMode::Good16, KeyMode::Garbage(0)),
+                    (TokenMode::Echo, SecretMode::Good16, KeyMode::Garbage(127)),
+                    (TokenMode::Echo, SecretMode::Len(0), KeyMode::ServerKey),
+                    (TokenMode::Echo, SecretMode::Len(15), KeyMode::ServerKey),
+                    (TokenMode::Echo, SecretMode::Len(17), KeyMode::ServerKey),
+                    (TokenMode::Echo, SecretMode::Len(32), KeyMode::ServerKey),
+                ];
+                for rep in 0..scale {
+                    for (mi, m) in modes.iter().enumerate() {
+                        for verdict in 0..4 {
+                            if rep == 0 && mi > 0 && verdict > 1 && (mi + verdict) % 2 == 0 { continue; }
+                            let intent = if (mi + verdict + rep) % 3 == 0 { Intent::Transfer } else { Intent::Login };
+                            let mut p = base_params(&mut r, intent);
+                            p.enc = m.clone();
+                            let mut ads = base_ads(&mut r);
+                            if let Ok(d) = &mut ads.discover.0 { if d.is_empty() { d.push(rnd_target(&mut r, 0)); } }
+                            ads.auth.0 = match verdict {
+                                0 => Ok(Profile { id: p.uuid, name: p.name.clone(), properties: vec![], profile_actions: vec![] }),
+                                1 => Ok(Profile { id: Uuid::from_u128(r.next() as u128), name: format!("Real{}", r.below(100)), properties: rnd_props(&mut r), profile_actions: vec![] }),
+                                2 => Ok(Profile { id: p.uuid, name: format!("{}x", p.name), properties: rnd_props(&mut r), profile_actions: vec![] }),
+                                _ => Err(()),
+                            };
+                            let secret = if r.chance(1, 2) { Some(r.bytes(32)) } else { None };
+                            let client = rnd_sa(&mut r);
+                            if intent == Intent::Transfer && r.chance(1, 2) {
+                                if let Some(s) = &secret { p.auth_payload = Some(valid_auth_cookie(&mut r, &client, s, 10, 21_600, false)); }
+                            }
+                            let sc = build("C01", &mut r, &p, ads, secret, client, format!("mode {} verdict {}", mi, verdict));
+                            run(sc, &mut r);
+                        }
+                    }
+                }
+            }
+            "C02" => {
+                let expiry: u64 = 21_600;
+                for rep in 0..scale {
+                    let client = rnd_sa(&mut r);
+                    let secret_v = r.bytes(*[1usize, 32, 64, 200].get(rep % 4).unwrap());
+                    let valid = valid_auth_cookie(&mut r, &client, &secret_v, 100, expiry, false);
+                    let mut variants: Vec<(String, Intent, Option<Vec<u8>>, Option<Vec<u8>>)> = vec![];
+                    let s = Some(secret_v.clone());
+                    variants.push(("valid".into(), Intent::Transfer, s.clone(), Some(valid.clone())));
+                    variants.push(("valid-login-intent".into(), Intent::Login, s.clone(), Some(valid.clone())));
+                    variants.push(("valid-no-secret".into(), Intent::Transfer, None, Some(valid.clone())));
+                    variants.push(("absent".into(), Intent::Transfer, s.clone(), None));
+                    variants.push(("empty".into(), Intent::Transfer, s.clone(), Some(vec![])));
+                    for age in [expiry as i64 - 1, expiry as i64, expiry as i64 + 1, 0, -5, 10 * expiry as i64] {
+                        variants.push((format!("age {}", age), Intent::Transfer, s.clone(), Some(valid_auth_cookie(&mut r, &client, &secret_v, age, expiry, false))));
+                    }
+                    variants.push(("other-ip".into(), Intent::Transfer, s.clone(), Some(valid_auth_cookie(&mut r, &client, &secret_v, 5, expiry, true))));
+                    variants.push(("other-secret".into(), Intent::Transfer, s.clone(), Some(valid_auth_cookie(&mut r, &client, b"another secret", 5, expiry, false))));
+                    let trunc: Vec<usize> = if scale >= 8 { (0..valid.len()).collect() } else { vec![0, 1, 31, 32, 33, valid.len() - 1] };
+                    for t in trunc { variants.push((format!("trunc {}", t), Intent::Transfer, s.clone(), Some(valid[..t].to_vec()))); }
+                    let nflips = if scale >= 8 { valid.len() * 8 } else { 24 };
+                    for k in 0..nflips {
+                        let bit = if scale >= 8 { k } else { (r.below(valid.len() as u64 * 8)) as usize };
+                        let bit = if k < 6 && scale < 8 { [0usize, 7, 255, 256, 263, 300][k] } else { bit };
+                        let mut v = valid.clone(); v[bit / 8] ^= 1 << (bit % 8);
+                        variants.push((format!("flip {}", bit), Intent::Transfer, s.clone(), Some(v)));
+                    }
+                    for body in [&b"{}"[..], &b"[]"[..], &b"null"[..], &b"\xff\xfe"[..], &b"{\"timestamp\":1}"[..]] {
+                        variants.push((format!("signed-garbage {:?}", body), Intent::Transfer, s.clone(), Some(passage_protocol::cookie::sign(body, &secret_v))));
+                    }
+                    variants.push(("valid-huge-expiry".into(), Intent::Transfer, s.clone(), Some(valid.clone())));
+                    variants.push(("old-huge-expiry".into(), Intent::Transfer, s.clone(), Some(valid_auth_cookie(&mut r, &client, &secret_v, 1_000_000, expiry, false))));
+                    for (note, intent, secret, payload) in variants {
+                        let mut p = base_params(&mut r, intent);
+                        p.auth_payload = payload;
+                        let mut ads = base_ads(&mut r);
+                        if r.chance(1, 4) { ads.auth.0 = Err(()); }
+                        let huge = note.ends_with("huge-expiry");
+                        let mut sc = build("C02", &mut r, &p, ads, secret, client, note);
+                        if huge { sc.expiry = u64::MAX - 5; }
+                        run(sc, &mut r);
+                    }
+                }
+            }
+            "C03" => {
+                for i in 0..(40 * scale) {
+                    let intent = *r.pick(&[Intent::Login, Intent::Transfer]);
+                    let mut p = base_params(&mut r, intent);
+                    p.locale = r.pick(&["de_DE", "de_de", "de", "zh_CN_x", "", "en_us", "fr_FR", "fr_fr_x_y", "_", "de_"]).to_string();
+                    let mut ads = base_ads(&mut r);
+                    let n = r.below(7) as usize;
+                    let mut ts: Vec<Target> = (0..n).map(|k| rnd_target(&mut r, k)).collect();
+                    if n > 1 && r.chance(1, 3) { let d = ts[0].clone(); ts.push(d); }
+                    ads.discover.0 = if r.chance(1, 10) { Err(()) } else { Ok(ts) };
+                    ads.filter.0 = match r.below(8) { 0 => FilterMode::Mask(r.next()), 1 => FilterMode::Reverse, 2 => FilterMode::Empty,
+                        3 => FilterMode::Foreign(vec![rnd_target(&mut r, 90)]), 4 => FilterMode::Fail, _ => FilterMode::Identity };
+                    ads.select.0 = match r.below(8) { 0 => SelectMode::Last, 1 => SelectMode::Nth(r.below(7) as usize), 2 => SelectMode::NoneSel,
+                        3 => SelectMode::Foreign(rnd_target(&mut r, 91)), 4 => SelectMode::Fail, _ => SelectMode::First };
+                    ads.loc_table.clear();
+                    for l in ["en_us", "en", "de", "de_DE", "zh_CN", "fr", "", "_"] {
+                        if r.chance(1, 2) {
+                            let mut m = HashMap::new();
+                            if r.chance(4, 5) { m.insert("disconnect_no_target".to_string(), format!("kein Ziel [{}]", l)); }
+                            if r.chance(4, 5) { m.insert("disconnect_timeout".to_string(), format!("Zeit [{}]", l)); }
+                            ads.loc_table.insert(l.to_string(), m);
+                        }
+                    }
+                    ads.loc_default = r.pick(&["en_us", "en_US", "de", ""]).to_string();
+                    ads.loc_fail = r.chance(1, 20);
+                    let secret = if r.chance(1, 2) { Some(r.bytes(16)) } else { None };
+                    let client = rnd_sa(&mut r);
+                    let sc = build("C03", &mut r, &p, ads, secret, client, format!("routing {}", i));
+                    run(sc, &mut r);
+                }
+            }
+            "C06" => {
+                // single-frame deviations of the happy paths
+                let ids: Vec<i32> = (0..=0x20).chain([-1, 0x7f, 0x80].into_iter()).collect();
+                for intent in [Intent::Status, Intent::Login, Intent::Transfer] {
+                    let probe_secret = Some(vec![9u8; 16]);
+                    let p0 = base_params(&mut r, intent);
+                    let probe = build2("C06", &mut r, &p0, probe_secret.clone(), "probe".into());
+                    let frame_pos: Vec<usize> = probe.acts.iter().enumerate().filter(|(_, a)| matches!(a, Act::Frame { .. } | Act::EncResponse { .. })).map(|(i, _)| i).collect();
+                    for (k, pos) in frame_pos.iter().enumerate() {
+                        for id in ids.iter() {
+                            if scale < 3 && r.below(3) != 0 { continue; }
+                            let mut p = base_params(&mut r, intent);
+                            if intent == Intent::Transfer { p.auth_payload = None; }
+                            let mut sc = build2("C06", &mut r, &p, probe_secret.clone(), format!("{:?} step {} id {}", intent, k, id));
+                            let body = match (*id, r.below(3)) {
+                                (0, 0) => handshake_body(769, "h", 1, 2),
+                                (0, 1) => login_start_body("Dev", &Uuid::from_u128(5)),
+                                (1, _) => 77u64.to_be_bytes().to_vec(),
+                                (4, 0) => cookie_resp_body("passage:session", &None),
+                                (4, _) => 99u64.to_be_bytes().to_vec(),
+                                (_, 2) => r.bytes(6),
+                                _ => vec![],
+                            };
+                            sc.acts[*pos] = Act::Frame { id: *id, body };
+                            run(sc, &mut r);
+                        }
+                        // the expected frame sent twice
+                        let p = base_params(&mut r, intent);
+                        let mut sc = build2("C06", &mut r, &p, probe_secret.clone(), format!("{:?} step {} repeated", intent, k));
+                        if let Act::Frame { .. } = sc.acts[*pos].clone() { let a = sc.acts[*pos].clone(); sc.acts.insert(*pos, a); run(sc, &mut r); }
+                    }
+                }
+                // every next-state ordinal around the defined range
+                for ns in -1..=5 {
+                    let p = base_params(&mut r, Intent::Login);
+                    let mut sc = build2("C06", &mut r, &p, None, format!("next-state {}", ns));
+                    for a in sc.acts.iter_mut() { if let Act::Frame { id: 0, body } = a { *body = handshake_body(p.proto, &p.host, p.port, ns); break; } }
+                    run(sc, &mut r);
+                }
+            }
+            "C07" => {
+                for i in 0..(30 * scale) {
+                    let intent = *r.pick(&[Intent::Login, Intent::Transfer]);
+                    let mut p = base_params(&mut r, intent);
+                    p.ci_delay = *r.pick(&[11u64, 501, 15_903, 16_105, 32_207, 48_309]) + 2 * r.below(40);
+                    p.ka = match r.below(7) { 0 => KaPolicy::Never, 1 => KaPolicy::WrongId(51), 2 => KaPolicy::Duplicate(71), 3 => KaPolicy::Prompt(15_801 + 2 * r.below(50)),
+                        4 => KaPolicy::StopAfter(1 + r.below(3) as usize, 91), 5 => KaPolicy::Prompt(7001 + 2 * r.below(500)), _ => KaPolicy::Prompt(31 + 2 * r.below(500)) };
+                    let mut ads = base_ads(&mut r);
+                    ads.auth.1 = if r.chance(1, 3) { *r.pick(&[17_003u64, 40_001, 5]) } else { short_lat(&mut r) };
+                    ads.discover.1 = lat(&mut r); ads.filter.1 = lat(&mut r); ads.select.1 = lat(&mut r);
+                    if let Ok(d) = &mut ads.discover.0 { if d.is_empty() && r.chance(2, 3) { d.push(rnd_target(&mut r, 0)); } }
+                    let sec = if r.chance(1, 2) { Some(r.bytes(16)) } else { None };
+                    let cl = rnd_sa(&mut r);
+                    let sc = build("C07", &mut r, &p, ads, sec, cl, format!("timing {}", i));
+                    run(sc, &mut r);
+                }
+            }
             _ => {}
         }
     }
     let mut h: Vec<_> = hist.into_iter().collect();
     h.sort();
     for (k, v) in h { emit_note("outcomes", &format!("{}={}", k, v)); }
-    let _ = (valid_auth_cookie as fn(&mut Rng, &SocketAddr, &[u8], i64, u64, bool) -> Vec<u8>, lat as fn(&mut Rng) -> u64, WriteResp::Pending);
+    let _ = WriteResp::Pending;
 }
